@@ -106,13 +106,28 @@ def build_init(case, X):
     return arg, pts
 
 
+class Runaway(AssertionError):
+    """The run kept adding centers after every frame must have been covered (would never terminate)."""
+
+
 class _Cap(logging.Handler):
-    def __init__(self):
+    """Collects the per-center log records of one run. It doubles as a watchdog: a run that has added more
+    centers than there are frames can only be looping forever (radius-only criterion), so the handler aborts it
+    from inside the loop instead of letting the check hang. Bounded by a count, not by time."""
+
+    def __init__(self, limit):
         logging.Handler.__init__(self, level=logging.DEBUG)
         self.records = []
+        self.limit = limit
+        self.added = 0
 
     def emit(self, record):
         self.records.append((record.msg, record.args))
+        if isinstance(record.msg, str) and record.msg.startswith("Center %s gives max dist"):
+            self.added += 1
+            if self.added > self.limit:
+                raise Runaway("k-centers added %d centers to %d frames and is still running"
+                              % (self.added, self.limit - 2))
 
 
 def call_lib(case, n_clusters="case", cutoff="case", tri="case", entry="case"):
@@ -125,7 +140,7 @@ def call_lib(case, n_clusters="case", cutoff="case", tri="case", entry="case"):
     tri = case["tri"] if tri == "case" else tri
     entry = case["entry"] if entry == "case" else entry
     metric = metric_obj(case["metric"])
-    cap = _Cap()
+    cap = _Cap(len(X) + 2)
     old = (LOGGER.level, LOGGER.propagate)
     LOGGER.addHandler(cap)
     LOGGER.setLevel(logging.INFO)
@@ -404,6 +419,8 @@ def kc_case(draw, max_small=14, max_bulk=40, bulk_share=4, init_kinds=("none", "
             n_clusters = m0 + 1
 
     use_tri = draw(st.booleans()) if tri is None else tri
+    if tri is None and init is not None and init["kind"] == "points":
+        use_tri = False       # shortcut + off-data initial centers has its own clause (shortcut_offdata)
     return {"X": X.tolist(), "d": d, "dtype": dtype, "values": values, "metric": metric, "init": init,
             "n_clusters": n_clusters, "cutoff": cutoff, "tri": use_tri,
             "entry": draw(st.sampled_from(["function", "function", "class"])),
@@ -427,11 +444,6 @@ def run_start(case):
             require(v.ci[:v.m0] == [int(i) for i in case["init"]["idx"]],
                     "center_indices do not begin with the supplied initial frames",
                     got=v.ci, want=case["init"]["idx"])
-        else:
-            # the index reported for an off-data center must at least be a frame of its own cluster
-            for i in range(v.m0):
-                require(v.lab[v.ci[i]] == i, "index reported for initial center %d is not in its cluster" % i,
-                        ci=v.ci, labels=v.lab.tolist())
     return v.info()
 
 
